@@ -1,5 +1,6 @@
 /- Driver stream `c22`: `w <raw> <stackLen> <hp> <stack hex> <heap hex> <idx:val>...` — one wide-integer
-instruction on the given memory (stack `[0, stackLen)`, heap `[hp, MEM_SIZE)`) and registers. -/
+instruction on the given memory (stack `[0, stackLen)`, heap `[hp, MEM_SIZE)`) and registers, in a script context;
+`v <savedHp> <raw> …` — the same inside a call whose innermost frame saved `$hp = savedHp`. -/
 import FuelVerif.Model.VmLine
 import FuelVerif.Model.Wide
 namespace FuelVerif.Drv.C22
@@ -18,18 +19,25 @@ def memDiff (stack heap : Array UInt8) (hp : Nat) (m' : Mem) : String :=
   | lo :: _, some hi => s!" m{lo}:{toHex ((List.range (hi - lo + 1)).map (fun i => m'.bytes (lo + i)))}"
   | _, _ => ""
 
+def exec (frames : List Nat) (raw sl hp sh hh : String) (rest : List String) : String :=
+  match raw.toNat?, sl.toNat?, hp.toNat?, ofHex sh, ofHex hh with
+  | some w, some _, some hp, some sb, some hb =>
+    let arr := parseRegArr rest
+    let stack := sb.toArray
+    let heap := hb.toArray
+    let s : VmSt := { regs := regsOfArray arr, mem := memOf stack heap hp, frames := frames }
+    match stepWide w s with
+    | some (s', p) => fmtOut arr (s'.regs, p) ++ memDiff stack heap hp s'.mem
+    | none => "not-wide"
+  | _, _, _, _, _ => "bad-op"
+
+/-- `w …`: script context (no call frame); `v <saved $hp of the innermost frame> …`: inside a call -/
 def handle : List String → String
-  | "w" :: raw :: sl :: hp :: sh :: hh :: rest =>
-    match raw.toNat?, sl.toNat?, hp.toNat?, ofHex sh, ofHex hh with
-    | some w, some _, some hp, some sb, some hb =>
-      let arr := parseRegArr rest
-      let stack := sb.toArray
-      let heap := hb.toArray
-      let s : VmSt := { regs := regsOfArray arr, mem := memOf stack heap hp, prevHp := FuelVerif.Gen.AluArgs.vmMaxRam }
-      match stepWide w s with
-      | some (s', p) => fmtOut arr (s'.regs, p) ++ memDiff stack heap hp s'.mem
-      | none => "not-wide"
-    | _, _, _, _, _ => "bad-op"
+  | "w" :: raw :: sl :: hp :: sh :: hh :: rest => exec [] raw sl hp sh hh rest
+  | "v" :: saved :: raw :: sl :: hp :: sh :: hh :: rest =>
+    match saved.toNat? with
+    | some f => exec [f] raw sl hp sh hh rest
+    | none => "bad-op"
   | _ => "bad-op"
 
 def run : IO Unit := lineLoopPure handle
